@@ -243,11 +243,19 @@ def run(ctx):
                 op["keep"] = ctx.rng.random() < 0.6
             impl.apply(op)
             log.append(H.clean(op))
+            if i % 7 == 6:
+                # query - mutate - query: the relationship queries are also asked in the middle of the history
+                try:
+                    check_tree(ctx, out, {"history": list(log), "tree": 0, "checked_every": 7}, "hist", tree=impl.trees[0])
+                except core.MachineryError:
+                    raise
+                except Exception as e:  # noqa
+                    out.fail(dict(kind="history", spec={"history": list(log), "tree": 0}), f"relationship queries raised {type(e).__name__}: {e} on a tree reached by {len(log)} operations")
         for ti in (0, 1):
             t = impl.trees[ti]
             before = len(out.oracle_failures)
             try:
-                check_tree(ctx, out, {"history": log, "tree": ti}, "hist", tree=t)
+                check_tree(ctx, out, {"history": log, "tree": ti, "checked_every": 7}, "hist", tree=t)
             except Exception as e:  # noqa  -- an accessor raised on a reachable tree
                 out.fail(dict(kind="history", spec={"history": log, "tree": ti}), f"relationship queries raised {type(e).__name__}: {e} on a tree reached by {len(log)} operations")
         out.dist["history_tree"] += 1
@@ -275,8 +283,10 @@ def replay(ctx, rp):
         impl.new(False)
         impl.new(False)
         impl._bij = world.Bij()
-        for op in spec["history"]:
+        for i, op in enumerate(spec["history"]):
             impl.apply(dict(op))
+            if spec.get("checked_every") and i % spec["checked_every"] == spec["checked_every"] - 1 and i + 1 < len(spec["history"]):
+                check_tree(ctx, core.Outcome(), spec, "replay-warm", tree=impl.trees[0])
         check_tree(ctx, out, spec, "replay", tree=impl.trees[spec["tree"]])
     else:
         check_tree(ctx, out, tuplify_d(spec), "replay", typed=bool(rp["case"].get("typed")))
